@@ -67,6 +67,10 @@ type item struct {
 	wkt  string
 	json []byte
 	igc  []byte
+	// the same encodings as text held in byte slices (what a database driver or a file
+	// read hands over): hex of the EWKB and the WKT
+	hexb []byte
+	wktb []byte
 }
 
 func genPoolGeom(t *rapid.T) *model.G {
@@ -150,7 +154,7 @@ var inventory = []string{
 	"xyz.Distances", "bigxy.Orientation", "bigxy.Intersection", "transform.UniqueCoords",
 	"wkb.Marshal", "ewkb.Marshal", "wkbhex.Encode", "ewkbhex.Encode", "wkt.Marshal", "wkt.MarshalDigits", "geojson.Marshal", "geojson.MarshalBBox", "geojson.Feature", "igc.Encode", "kml.Encode",
 	"wkb.Unmarshal", "ewkb.Unmarshal", "ewkb.Scan", "wkt.Unmarshal", "geojson.Unmarshal", "igc.Read",
-	"xy.Misc", "xy.CentroidsWithExtras", "wkb.WriteRead", "hex.Decode", "geojson.FeatureCollection",
+	"xy.Misc", "xy.CentroidsWithExtras", "wkb.WriteRead", "hex.Decode", "geojson.FeatureCollection", "decode.CrossFormat", "decode.CrossFormat",
 	"geojson.MarshalSharedOpts", "geojson.MarshalSharedOpts", "wkt.MarshalSharedOpts", "wkb.UnmarshalSharedOpts", "geojson.MarshalSharedSlice", "geojson.MarshalSharedSlice",
 }
 
@@ -234,6 +238,13 @@ func buildPool(c Case) ([]*item, error) {
 		}
 		if s, err := refwkt.Write(g, nil); err == nil {
 			it.wkt = s
+			it.wktb = []byte(s)
+		}
+		if it.ewkb != nil {
+			it.hexb = []byte(hex.EncodeToString(it.ewkb))
+			if i%3 == 0 {
+				it.hexb = bytes.ToUpper(it.hexb)
+			}
 		}
 		// the inputs of the decoders are rendered from a second, private object:
 		// nothing may touch the pool object before the first snapshot is taken
@@ -705,6 +716,44 @@ func execInner(pool []*item, c Call, geomRes func(geom.T, error) string, bytesRe
 			return "err:" + err.Error()
 		}
 		return canonGeom(p.Polygon, nil)
+	case "decode.CrossFormat":
+		// every decoder is handed every byte slice of the item, also those of another
+		// format (text where binary is expected and the other way round): whatever it
+		// answers, the bytes are the caller's
+		inputs := [][]byte{a.ewkb, a.wkb, a.hexb, a.wktb, a.json, a.igc}
+		in := inputs[c.B%len(inputs)]
+		if in == nil {
+			return "n/a"
+		}
+		res := func(g geom.T, err error) string {
+			if err != nil {
+				return "err:" + err.Error()
+			}
+			return canonGeom(g, nil)
+		}
+		var sb strings.Builder
+		var w0 ewkb.Point
+		sb.WriteString(res(w0.Point, w0.Scan(in)))
+		var w1 ewkb.LineString
+		sb.WriteString(res(w1.LineString, w1.Scan(in)))
+		var w2 ewkb.Polygon
+		sb.WriteString(res(w2.Polygon, w2.Scan(in)))
+		var w3 ewkb.MultiPoint
+		sb.WriteString(res(w3.MultiPoint, w3.Scan(in)))
+		var w4 ewkb.MultiLineString
+		sb.WriteString(res(w4.MultiLineString, w4.Scan(in)))
+		var w5 ewkb.MultiPolygon
+		sb.WriteString(res(w5.MultiPolygon, w5.Scan(in)))
+		var w6 ewkb.GeometryCollection
+		sb.WriteString(res(w6.GeometryCollection, w6.Scan(in)))
+		var v wkb.Geom
+		sb.WriteString(res(v.T, v.Scan(in)))
+		sb.WriteString(res(ewkb.Unmarshal(in)))
+		sb.WriteString(res(wkb.Unmarshal(in)))
+		var gj geom.T
+		sb.WriteString(res(gj, geojson.Unmarshal(in, &gj)))
+		sb.WriteString(res(ewkb.Read(bytes.NewReader(in))))
+		return sb.String()
 	case "wkt.Unmarshal":
 		if a.wkt == "" {
 			return "n/a"
@@ -755,7 +804,7 @@ func snapPool(pool []*item) string {
 	var sb strings.Builder
 	for _, it := range pool {
 		snapGeom(it.t, &sb)
-		fmt.Fprintf(&sb, "|%x|%x|%s|%s|%x\n", it.wkb, it.ewkb, it.wkt, it.json, it.igc)
+		fmt.Fprintf(&sb, "|%x|%x|%s|%s|%x|%s|%s\n", it.wkb, it.ewkb, it.wkt, it.json, it.igc, it.hexb, it.wktb)
 	}
 	fmt.Fprint(&sb, wkbcommon.MaxGeometryElements, geojson.DefaultLayout)
 	return sb.String()
